@@ -1,6 +1,7 @@
 import EvoModel.Model.Basic
 import EvoModel.Model.Hex
 import EvoModel.Model.Config
+import EvoModel.Lemmas.Config
 import EvoModel.Gen.Settings
 import EvoModel.Gen.Options
 /-! driver operations of C18.
@@ -77,6 +78,24 @@ def showRes : Except Err Dict → String
 def tableOf : String → Option (List Opt)
   | "ape" => some Gen.apeOptions | "rpe" => some Gen.rpeOptions | "traj" => some Gen.trajOptions | _ => none
 
+/-- split a token list into option groups over the table (`none`: a token is not `--name` of the table
+where an option is expected) -/
+def splitGroups (T : List Opt) : List String → Option (List TGroup)
+  | [] => some []
+  | arg :: rest =>
+    if !arg.startsWith "--" then none else
+    match T.find? (fun o => o.name = (arg.drop 2).toString) with
+    | none => none
+    | some o =>
+      let vals := rest.takeWhile (fun t => !t.startsWith "--")
+      let after := rest.dropWhile (fun t => !t.startsWith "--")
+      (splitGroups T after).map (fun gs => ⟨o, vals⟩ :: gs)
+termination_by l => l.length
+decreasing_by
+  have : (List.dropWhile (fun t => !t.startsWith "--") rest).length ≤ rest.length :=
+    (List.dropWhile_sublist _).length_le
+  simp only [List.length_cons]; omega
+
 def exclOf : String → List (List String)
   | "ape" => Gen.apeExclusive | "rpe" => Gen.rpeExclusive | "traj" => Gen.trajExclusive | _ => []
 
@@ -85,6 +104,7 @@ def exclOf : String → List (List String)
   `lock <dict> <hexkey> <value>` · `generate <strs>` · `generateold <strs>`
   `mergecfg <args> <config> <settings>` → `<dict> | <dict>`
   `argparse <app> <strs>` → dict | `E_ARGS` · `viaconfig <app> <strs>` = merge_config(defaults, generate(strs)) namespace
+  `wfargs <app> <strs>` → `1` iff the list is a well-formed option-group list (hypothesis of generate_equiv_args)
   `isnumber <hex>` → `0` | `1 <float as p/q | E_OVERFLOW>` · `defaults` → dict -/
 def handle (op : String) (args : List String) : Option String :=
   match op with
@@ -136,6 +156,16 @@ def handle (op : String) (args : List String) : Option String :=
           match argparseLong t ss (defaultsOf t) (exclOf app) with
           | some d => some (showDict d)
           | none => some "E_ARGS"
+      | [] => none
+  | "wfargs" =>
+      match args with
+      | app :: rest => do
+          let t ← tableOf app
+          let (ss, _) ← readStrs rest
+          match splitGroups t ss with
+          | none => some "0"
+          | some gs =>
+            if gs.flatMap TGroup.render == ss && gs.all (wfGroup t) && exclFree (exclOf app) ss then some "1" else some "0"
       | [] => none
   | "viaconfig" =>
       match args with
